@@ -208,7 +208,47 @@ def check_lean(_item):
     return obs
 
 
+def check_column_default(_item):
+    """lit/position: a column DEFAULT that is not already a term is stored as one constant wrapper (one literal
+    token) - never as an array / tuple term"""
+    from ..values import Obj
+    r = repo()
+    ci = r.cls("queries.Column")
+    fi = ci.methods["__init__"]
+    run = run_function(fi, ci, self_fresh=True)
+    if run.error:
+        return [Obligation(PROP, "queries.Column.__init__|lit/position|default", "lit/position", fi.short, UNSUPPORTED,
+                           reason=run.error)]
+    ex = run.ex
+    vw = ex.tags.sub(r.cls("terms.ValueWrapper"))
+    term = ex.tags.sub(r.cls("terms.Term"))
+    dflt = run.params["default"]
+    is_term = ex.smt.tag_in("default", term, ex.tags.all())
+    is_none = ex.smt.tag_in("default", frozenset({"NoneType"}), ex.tags.all())
+    ok, why, n = True, "", 0
+    for o in run.outcomes:
+        if o.status != "return":
+            continue
+        pc = o.state.pc + [z3.Not(is_term), z3.Not(is_none)]
+        if not ex.smt.feasible(pc):
+            continue
+        n += 1
+        ex.st = o.state
+        ex.frames = []
+        from .render import resolve
+        v = resolve(ex, pc, ex.get_attr(run.self_obj, "default"))
+        good = isinstance(v, Obj) and o.state.heap[v.oid].cls is not None and o.state.heap[v.oid].cls.short in vw
+        if not good:
+            ok, why = False, f"a non-term default is stored as {v!r} (not a constant wrapper)"
+    return [Obligation(PROP, "queries.Column.__init__|lit/position|default", "lit/position", fi.short,
+                       PROVED if ok and n else REFUTED,
+                       detail="a column DEFAULT value is wrapped in ValueWrapper, so it renders as one literal",
+                       reason=why, witness={"family": "call", "oracle": "column_default", "args": []})]
+
+
 def _dispatch(item):
+    if item[0] == "$column":
+        return check_column_default(item)
     if item[0] == "$json":
         return check_json(item)
     if item[0] == "$lean":
@@ -218,7 +258,7 @@ def _dispatch(item):
 
 def generate(tier="quick"):
     r = repo()
-    items = [("$json", None), ("$lean", None)]
+    items = [("$json", None), ("$lean", None), ("$column", None)]
     vw = r.cls("terms.ValueWrapper")
     for ci in r.subclasses(vw):
         items.append((ci.resolve("get_value_sql")[1].qual, ci.qual))
